@@ -132,6 +132,10 @@ func runC08(c *core.Case) {
 		c08Huge(c)
 		return
 	}
+	if c.I > c08Directed && hammerWanted(c, c08Directed+1) {
+		c08Hammer(c, c08Directed+1)
+		return
+	}
 	if c.I >= c08Directed && r.P(0.02) { // consecutive neighbourhood queries on two IDs that collide under a common 32-bit string hash
 		pairs := hashCollisionPairs()
 		if len(pairs) > 0 {
@@ -282,6 +286,7 @@ func runC08(c *core.Case) {
 		list[n-2] = ref.Shift(list[0], 1, 0, 0) // overlapping neighbourhoods far apart in the list
 		hl, vl = 1, 0
 		c.Tag("very-long-list")
+		c.Procs()
 	}
 	if !forced && r.P(0.03) {
 		// two voxels at different horizontal zooms whose (zoom, index) pairs coincide under a packed integer key
